@@ -12,6 +12,7 @@ the peer's pending actions happen first.  Calls that would block are resolved
 on the virtual clock.
 """
 import errno
+import weakref as _weakref
 import fcntl
 import os as _os
 import select as _select
@@ -181,6 +182,14 @@ class Action(object):
         return '%s(%r)%s' % (self.kind, arg, '' if self.at is None else '@%g' % self.at)
 
 
+def fd_open(fd):
+    try:
+        _os.fstat(fd)
+        return True
+    except OSError:
+        return False
+
+
 def fionread(fd):
     return struct.unpack('i', fcntl.ioctl(fd, termios.FIONREAD, b'\0\0\0\0'))[0]
 
@@ -212,9 +221,11 @@ class Env(object):
         self.no_more_timeouts = False
         self.idle = 0
         self.pump = None           # reactive peer hook, called at every scheduling point
+        self.hs_spawns = []        # harness spawns created in this environment
         self.sent = {}             # fd -> bytes the library wrote with os.write (harness-side transcript)
         self.eager_reader = False
         self.blocked = {}          # label -> virtual seconds spent blocked there
+        self.blocking_in = None    # label of the virtual blocking call the library is in right now
         self.idle_limit = 3
         self.popen_dirty = True
         self.baton = None
@@ -383,7 +394,28 @@ class Env(object):
             else:
                 break
         self.procs.settle()
+        self.master_hangups()
         return fired
+
+    def master_hangups(self):
+        """Closing the master side of a pty hangs the terminal up: the kernel sends SIGHUP to the session
+        leader on the slave side (our simulated child), whether or not it still has the slave open."""
+        for rec in self.hs_spawns:
+            if rec[3]:
+                continue
+            sp = rec[0]()
+            if sp is not None:
+                pp = getattr(sp, 'ptyproc', None)
+                if pp is None:
+                    continue
+                f = getattr(pp, 'fileobj', None)
+                if not ((f is not None and f.closed) or not fd_open(rec[2])):
+                    continue
+            # (a collected object has closed its descriptor in __del__)
+            rec[3] = True
+            p = rec[1]
+            if p.alive():
+                self.procs._deliver(p, signal.SIGHUP)
 
     def sched(self, label):
         """A scheduling point before an intercepted call."""
@@ -453,9 +485,12 @@ class Env(object):
         deadline = None if timeout is None else CLOCK.now + timeout
         guard = 0
         t_in = CLOCK.now
+        outer = self.blocking_in
+        self.blocking_in = label
         try:
             return self._block_until(ready, deadline, label)
         finally:
+            self.blocking_in = outer
             self.blocked[label] = self.blocked.get(label, 0.0) + (CLOCK.now - t_in)
 
     def _block_until(self, ready, deadline, label):
@@ -795,6 +830,7 @@ def harness_spawn_class():
             pp = ptyprocess.PtyProcess(proc.pid, m)
             env.fds.discard(m)          # from now on the library owns the master
             self.hs_env = env
+            env.hs_spawns.append([_weakref.ref(self), proc, m, False])
             cb = getattr(env, 'on_spawn', None)
             if cb is not None:
                 cb(self)
